@@ -520,7 +520,10 @@ Record case := mk_case {
   k_git : bool;
   k_root : bytes;             (* the root commit id *)
   k_steps : list step;
-  k_ids_are_hashes : bool }.  (* simple backend: every id = BLAKE2b-512(hashed) *)
+  k_ids_are_hashes : bool;    (* simple backend: every id = BLAKE2b-512(hashed) *)
+  k_objects : list (bytes * option bytes) }.
+    (* files, symlink targets and (serialised) trees: what was written, and what a fresh
+       store read back for the returned id (None = error) *)
 
 (** The property on the implementation's outputs: in the domain, the read-back commit and
     the cached commit are the returned one; and two steps get the same id iff they
@@ -543,8 +546,11 @@ Definition ids_okb (exempt : commit -> bool) (git : bool) (ss : list step) : boo
         || Bool.eqb (bytes_eqb i1 i2) (commit_eqb r1 r2)
     | _, _ => true
     end) ss) ss.
+Definition objects_okb (c : case) : bool :=
+  forallb (fun p => option_eqb bytes_eqb (snd p) (Some (fst p))) (k_objects c).
 Definition okb_gen (exempt : commit -> bool) (c : case) : bool :=
-  forallb (step_okb exempt (k_git c)) (k_steps c) && ids_okb exempt (k_git c) (k_steps c).
+  forallb (step_okb exempt (k_git c)) (k_steps c) && ids_okb exempt (k_git c) (k_steps c)
+  && objects_okb c.
 Definition okb : case -> bool := okb_gen (fun _ => false).
 (** Known findings F2 (placeholder literal) and F6 (padded names), Git backend only: a
     failing case is demoted only if it passes once the steps inside the classes are exempt,
@@ -654,4 +660,5 @@ Definition pair_ok (git : bool) (s1 s2 : step) : Prop :=
   end.
 Definition case_ok (c : case) : Prop :=
   (forall s, In s (k_steps c) -> step_ok (k_git c) s)
-  /\ (forall s1 s2, In s1 (k_steps c) -> In s2 (k_steps c) -> pair_ok (k_git c) s1 s2).
+  /\ (forall s1 s2, In s1 (k_steps c) -> In s2 (k_steps c) -> pair_ok (k_git c) s1 s2)
+  /\ (forall written read, In (written, read) (k_objects c) -> read = Some written).
